@@ -295,7 +295,7 @@ func TestC06(t *testing.T) {
 		o := avOpts(3, false)
 		it := richItem(rt, o)
 		c := gen.NewExprCtx(it, o)
-		c.IllTyped = 20
+		c.IllTyped = rapid.SampledFrom([]int{0, 5, 10, 25}).Draw(rt, "illTypedPct")
 		e := c.Cond(rt, rapid.IntRange(0, 5).Draw(rt, "depth"))
 		ec := exprCase{Expr: gen.Decorate(rt, model.Render(e)), Item: it, Names: c.Names, Values: c.Values,
 			API: rapid.IntRange(0, 9).Draw(rt, "api") == 0}
